@@ -7,14 +7,16 @@ import (
 )
 
 // TestFamily writes the trace of the `handshake` scenario family.  Version-function records and
-// two-chain histories are interleaved so that the (expensive) histories spread over the Coq shards.
+// two-chain histories are interleaved in 16 rounds so that the (expensive) histories spread evenly
+// over the Coq shards.
 func TestFamily(t *testing.T) {
 	r := hx.NewRng("handshake")
 	o := hx.NewOut()
 	defer o.Close()
-	nh := hx.N(9, 150)
-	for part := 0; part < 4; part++ {
-		famVersions(r, o, part)
+	nv := hx.N(62, 2000) // version records per round (4 rounds per function kind)
+	nh := hx.N(2, 36)    // histories per round
+	for round := 0; round < 16; round++ {
+		famVersions(r, o, round%4, nv)
 		famHistories(t, r, o, nh)
 	}
 	t.Logf("records=%d", o.Count())
